@@ -857,6 +857,10 @@ fn thresholds(rng: &mut Rng) -> (Vec<(&'static str, String)>, &'static str) {
         o.push(("--l0-mandatory-compaction-threshold-files", mandatory.to_string()));
         o.push(("--l0-write-stall-threshold-files", stall.max(1).to_string()));
         o.push(("--max-compaction-files", mcf.to_string()));
+        if rng.chance(1, 3) {
+            // a byte limit small enough to bite: level-0 compactions are exempt from it by design
+            o.push(("--max-compaction-bytes", rng.pick(&[2048u64, 4096, 8192]).to_string()));
+        }
     } else {
         o.push(("--l0-mandatory-compaction-threshold-files", rng.range(1, 4).to_string()));
         o.push(("--l0-write-stall-threshold-files", rng.pick(&[1u64, 2, 3, 4, 12]).to_string()));
